@@ -90,6 +90,32 @@ impl SnmpOid<'_> {
     pub fn starts_with(&self, oid: &SnmpOid) -> bool {
         oid.0.starts_with(&self.0)
     }
+    // Check self precedes oid in the lexicographic order
+    // of the sub-identifiers (not of the encoded octets)
+    pub fn precedes(&self, oid: &SnmpOid) -> bool {
+        let mut left = self.0.iter();
+        let mut right = oid.0.iter();
+        loop {
+            match (Self::next_subid(&mut left), Self::next_subid(&mut right)) {
+                (Some(x), Some(y)) if x == y => continue,
+                (Some(x), Some(y)) => return x < y,
+                (None, Some(_)) => return true,
+                _ => return false,
+            }
+        }
+    }
+    // Decode next sub-identifier.
+    // First two are packed together, which keeps the order.
+    fn next_subid(iter: &mut std::slice::Iter<u8>) -> Option<u64> {
+        let mut v = 0u64;
+        for c in iter {
+            v = (v << 7) | ((c & 0x7f) as u64);
+            if c & 0x80 == 0 {
+                return Some(v);
+            }
+        }
+        None
+    }
 }
 
 struct OidSubelementIterator<'a>(core::str::Split<'a, &'a str>);
